@@ -132,11 +132,33 @@ func Bool(b bool) Pred {
 	return pFalse{}
 }
 
+// simplifyEqZ builds the predicate p ≡ 0 (mod q). GF(q) is an integral domain (q prime), so a
+// variable dividing every monomial is split off: x·r ≡ 0 ⇔ x ≡ 0 ∨ r ≡ 0. Without this rewrite
+// the solver, which does not know that q is prime, cannot refute e.g. t·δ ≡ 0 from t ≢ 0, δ ≢ 0.
 func simplifyEqZ(p *Poly) Pred {
 	if p.isConst() {
 		return Bool(p.constVal().Sign() == 0)
 	}
-	return pEqZ{p}
+	common, rest := p.commonFactor()
+	if len(common) == 0 {
+		return pEqZ{p}
+	}
+	var alts []Pred
+	seen := map[int]bool{}
+	for _, v := range common {
+		if !seen[v] {
+			seen[v] = true
+			alts = append(alts, pEqZ{polyVar(v)})
+		}
+	}
+	if rest.isConst() {
+		if rest.constVal().Sign() == 0 {
+			return pTrue{}
+		}
+	} else {
+		alts = append(alts, simplifyEqZ(rest))
+	}
+	return Or(alts...)
 }
 
 // EqF is a == b in the field.
